@@ -13,7 +13,7 @@ rsync -a --exclude .git /repo/ $M/repo/
 (cd $M/repo && go build ./... && go test -vet=off -count=1 ./... >/dev/null 2>&1) || { echo "BENIGN $(basename $patch): does not build or fails the module's tests"; exit 3; }
 bad=0
 for c in $checks; do
-  VERIF_REPO=$M/repo VERIF_OUT=$M/out VERIF_BUDGET=${VERIF_BUDGET:-8} /verif/verifctl.py check $c quick > $M/$c.log 2>&1
+  VERIF_CACHE=$M/cache VERIF_REPO=$M/repo VERIF_OUT=$M/out VERIF_BUDGET=${VERIF_BUDGET:-8} /verif/verifctl.py check $c quick > $M/$c.log 2>&1
   r=$?
   if [ $r != 0 ]; then
     bad=1
